@@ -11,6 +11,8 @@ import (
 	"strings"
 	"time"
 
+	"github.com/golang/snappy"
+	"github.com/samaritan-proxy/samaritan/host"
 	pbredis "github.com/samaritan-proxy/samaritan/pb/config/protocol/redis"
 	"github.com/samaritan-proxy/samaritan/proc/redis"
 
@@ -24,6 +26,8 @@ import (
 //	c11.line <kind> <n>            decode a line of n bytes without LF, then LF (i inline, s simple string, e error) -> ok <len> | err, peak memory class
 //	c11.redir <hex error text>     a backend error reply through the real client.handleResp/handleRedirection -> replied <reply> | resent | panic
 //	c11.nodes <hex text>           parseClusterNodes -> ok m=<masters> r=<replicas> s=<slots> | err | panic
+//	c11.reply <e|d> <b|a> <hex>    a backend reply value (bulk string, or the value of an HGETALL pair) through the reply hooks of a processor with a
+//	                               compression section (enabled / disabled but configured) -> replied <reply> | pending | panic
 //	c11.scan <reply value>         SCAN reply hook -> done <reply> | panic
 //	c11.session <hex bytes>        bytes sent by a client to a real session; then a second client sends PING
 //	                               -> first=<closed|open> replies=<n> errs=<n> second=<pong|dead>
@@ -39,13 +43,15 @@ func init() {
 
 func (*c11) Rule() string {
 	return "malformed and adversarial inputs at every parser: deeply nested arrays (up to 8M levels) and nested maximal array headers, unbounded lines, mutated RESP frames, " +
-		"malformed MOVED/ASK/CLUSTERDOWN errors, malformed CLUSTER NODES replies (missing fields, unknown masters, huge slot ranges), malformed SCAN replies, arbitrary bytes on a real downstream session " +
+		"malformed MOVED/ASK/CLUSTERDOWN errors, reply values that are prefixes, mutations and truncations of a compression frame (compression enabled, or configured and disabled), malformed CLUSTER NODES replies (missing fields, unknown masters, huge slot ranges), malformed SCAN replies, arbitrary bytes on a real downstream session " +
 		"followed by a PING on a second connection; each in a child process under an address-space limit and a deadline. Non-trivial = rejected for a reason other than plain EOF, or nests >= 3; distinct by op line"
 }
 
 func (c *c11) Exec(op string) string { return c.iso.Exec(op) }
 func (c11child) Rule() string        { return "" }
 func (c11child) Gen(*hx.Run)         {}
+
+var c11seq int
 
 func (c11child) Exec(op string) string {
 	f := hx.Fields(op)
@@ -135,6 +141,39 @@ func (c11child) Exec(op string) string {
 				return "err"
 			}
 			return "ok"
+		})
+	case "c11.reply":
+		if len(f) != 4 {
+			return "bad-op"
+		}
+		val, err := hx.Unhex(f[3])
+		if err != nil || (f[1] != "e" && f[1] != "d") || (f[2] != "b" && f[2] != "a") {
+			return "bad-op"
+		}
+		return recoverStr(func() string {
+			c11seq++
+			rig := redis.VerifNewRig(fmt.Sprintf("c11-%d-%d", os.Getpid(), c11seq), hx.RedisConfig(pbredis.ReadStrategy_MASTER, &pbredis.Compression{Enable: f[1] == "e", Threshold: 1}),
+				[]*host.Host{host.New(hx.NodeAddr(0)), host.New(hx.NodeAddr(1))}, []string{hx.NodeAddr(0), hx.NodeAddr(1)})
+			rig.SetSlot(0, 16383, hx.NodeAddr(0), nil)
+			cmd := "get"
+			if f[2] == "a" {
+				cmd = "hgetall"
+			}
+			raw := rig.Handle(hx.Bulks([]byte(cmd), []byte("k")))
+			sent := rig.Drain()
+			if len(sent) != 1 {
+				return "not-forwarded"
+			}
+			sent[0].Filter()
+			reply := &redis.RespValue{Type: redis.BulkString, Text: val}
+			if f[2] == "a" {
+				reply = &redis.RespValue{Type: redis.Array, Array: []redis.RespValue{{Type: redis.BulkString, Text: []byte("f")}, {Type: redis.BulkString, Text: val}}}
+			}
+			sent[0].Reply(reply)
+			if raw.Done() {
+				return "replied " + hx.Render(raw.Response())
+			}
+			return "pending"
 		})
 	case "c11.scan":
 		return (c18{}).Exec("c18.step 3 " + f[1] + " " + hx.Hex([]byte("0")))
@@ -238,6 +277,34 @@ func (c *c11) Gen(r *hx.Run) {
 	for _, lv := range []int{1, 3, 33} {
 		r.Do(fmt.Sprintf("c11.deep b %d", lv), true, "deep-alloc")
 	}
+	// 1b. reply values around the compression frame: every prefix of a real frame, mutated header bytes, truncated streams
+	{
+		var fb bytes.Buffer
+		w := snappy.NewBufferedWriter(&fb)
+		w.Write(bytes.Repeat([]byte("hot "), 30))
+		w.Close()
+		frame := append([]byte("(P$\x00\r\n"), fb.Bytes()...)
+		var vals [][]byte
+		for i := 0; i <= len(frame) && i <= 24; i++ {
+			vals = append(vals, frame[:i])
+		}
+		vals = append(vals, frame, frame[:len(frame)-1], frame[:len(frame)/2])
+		for i := 0; i < 6; i++ {
+			m := append([]byte{}, frame...)
+			m[i] ^= byte(1 + rng.Intn(255))
+			vals = append(vals, m, m[:i+1])
+		}
+		for i := 0; i < r.N(12, 300); i++ {
+			m := append([]byte{}, frame...)
+			for k := 0; k < 1+rng.Intn(3); k++ {
+				m[rng.Intn(len(m))] = byte(rng.Intn(256))
+			}
+			vals = append(vals, m[:rng.Intn(len(m)+1)])
+		}
+		for i, v := range vals {
+			r.Do(fmt.Sprintf("c11.reply %s %s %s", "ed"[i%2:][:1], "ba"[(i/2)%2:][:1], orDash(hx.Hex(v))), true, "reply")
+		}
+	}
 	// 2. unbounded lines
 	for _, k := range []string{"i", "s", "e"} {
 		for _, n := range []int{10, 4095, 4096, 65535, 65536, 65537, 1 << 20} {
@@ -334,4 +401,11 @@ func (c *c11) Gen(r *hx.Run) {
 		r.Do("c11.session "+hx.Hex(b), true, "session-mut")
 	}
 	_ = os.Getpid
+}
+
+func orDash(s string) string {
+	if s == "" {
+		return "-"
+	}
+	return s
 }
